@@ -95,37 +95,48 @@ def build_op(spec, world):
     raise ValueError(spec["op"])
 
 
-def build(spec, world):
-    """spec (JSON-able) -> gate object through the public API"""
+def build(spec, world, own=None):
+    """spec (JSON-able) -> gate object through the public API.  own: when a list is given, every numpy array handed to a
+    constructor (rotation vector, preparation vector, user-defined matrix) is a caller-owned array and is collected there"""
     import qib
     from qib.operator import BlockEncodingMethod
+
+    def keep(a):
+        if own is not None:
+            own.append(a)
+        return a
     k = spec["k"]
     if k == "leaf":
         nm, q = spec["name"], [world.q(i) for i in spec["q"]]
         P = spec.get("params", [])
         one = {"I": qib.IdentityGate, "X": qib.PauliXGate, "Y": qib.PauliYGate, "Z": qib.PauliZGate,
                "H": qib.HadamardGate, "S": qib.operator.SGate, "Sdg": qib.operator.SAdjGate,
-               "T": qib.operator.TGate, "Tdg": qib.operator.TAdjGate}
+               "T": qib.operator.TGate, "Tdg": qib.operator.TAdjGate, "Sx": qib.operator.SxGate}
         if nm in one:
             return one[nm](*q)
         if nm in ("Rx", "Ry", "Rz"):
             return {"Rx": qib.RxGate, "Ry": qib.RyGate, "Rz": qib.RzGate}[nm](P[0], *q)
         if nm == "Rot":
-            return qib.RotationGate(list(P), *q)
+            return qib.RotationGate(keep(np.array(P, dtype=float)) if own is not None else list(P), *q)
         if nm in ("Rxx", "Ryy", "Rzz"):
-            return {"Rxx": qib.RxxGate, "Ryy": qib.RyyGate, "Rzz": qib.RzzGate}[nm](P[0], q[0], q[1])
+            return {"Rxx": qib.RxxGate, "Ryy": qib.RyyGate, "Rzz": qib.RzzGate}[nm](P[0], *(q if q else [None, None]))
+        if nm == "ISwap":
+            return qib.operator.ISwapGate(*q)
+        if nm == "Phase":
+            g = qib.operator.PhaseFactorGate(P[0], spec["n"])
+            return g.on(q) if q else g
         raise ValueError(nm)
     if k == "ctrl":
         if spec.get("default_state"):      # ctrl_state omitted: documented default = active on all ones
             assert all(b == 1 for b in spec["pat"])
-            g = qib.ControlledGate(build(spec["g"], world), len(spec["pat"]))
+            g = qib.ControlledGate(build(spec["g"], world, own), len(spec["pat"]))
         else:
-            g = qib.ControlledGate(build(spec["g"], world), len(spec["pat"]), list(spec["pat"]))
+            g = qib.ControlledGate(build(spec["g"], world, own), len(spec["pat"]), list(spec["pat"]))
         if spec["cq"] is not None:
             g.set_control([world.q(i) for i in spec["cq"]])
         return g
     if k == "mux":
-        g = qib.MultiplexedGate([build(s, world) for s in spec["gs"]], spec["nc"])
+        g = qib.MultiplexedGate([build(s, world, own) for s in spec["gs"]], spec["nc"])
         if spec["cq"] is not None:
             g.set_control([world.q(i) for i in spec["cq"]])
         return g
@@ -137,12 +148,12 @@ def build(spec, world):
     if k == "tevo":
         return qib.TimeEvolutionGate(build_op(spec["h"], world), float(spec["t"]))
     if k == "prep":
-        g = qib.PrepareGate(np.array(spec["vec"], dtype=float), spec["n"], bool(spec["tr"]))
+        g = qib.PrepareGate(keep(np.array(spec["vec"], dtype=float)), spec["n"], bool(spec["tr"]))
         if spec["q"] is not None:
             g.on([world.q(i) for i in spec["q"]])
         return g
     if k == "gen":
-        M = np.array([[complex(a, b) for a, b in row] for row in spec["mat"]])
+        M = keep(np.array([[complex(a, b) for a, b in row] for row in spec["mat"]]))
         g = qib.GeneralGate(M, spec["n"])
         if spec["q"] is not None:
             g.on([world.q(i) for i in spec["q"]])
@@ -958,6 +969,7 @@ def run(ctx, pid):
     history_checks(ctx, pid)
     generator_checks(ctx, pid)
     layout_checks(ctx, pid)
+    object_history_checks(ctx, pid)
     if pid == "C02":
         wide_control_checks(ctx)
     gcases = general_cases(ctx, pid) if pid in ("C01", "C16") else []
@@ -1753,6 +1765,355 @@ def layout_checks(ctx, pid):
             ctx.nontriv(("layout", inp["gate"], inp["as"], repr(inp.get("mat", inp.get("vec")))[:300]))
 
 
+# =============================================================================== gate objects along histories
+# (i)   arrays handed out by as_matrix() (of the gate, of its inverse, of its parts) must be FRESH: writing into them must not
+#       change what this object, or any other instance of the class, reports afterwards; arrays handed TO a constructor: the
+#       gate may follow the caller's array (by-reference parameter) but must still be a gate (unitary, invertible, flags sound)
+# (ii)  nearly-equal-but-different parameters inside one composite (multiplexer targets, circuits): every target's own inverse
+# (iii) inverse() -> re-bind (on / set_control / set_auxiliary_qubits) -> inverse() again, inverse().inverse() after re-binding:
+#       particles and matrices, also at circuit level
+def _leaf(name, q, params=None, **kw):
+    d = {"k": "leaf", "name": name, "q": list(q)}
+    if params is not None:
+        d["params"] = list(params)
+    d.update(kw)
+    return d
+
+
+def class_specs():
+    """one or more specs (gates bound to qubits 0..w-1) for EVERY gate class of qib.operator, keyed by class name"""
+    r = 1 / math.sqrt(2)
+    mono = [[[0, 0], [0, 1], [0, 0], [0, 0]], [[1, 0], [0, 0], [0, 0], [0, 0]], [[0, 0], [0, 0], [0, 0], [-1, 0]], [[0, 0], [0, 0], [0, -1], [0, 0]]]
+    sp = {
+        "IdentityGate": [_leaf("I", [0])], "PauliXGate": [_leaf("X", [0])], "PauliYGate": [_leaf("Y", [0])], "PauliZGate": [_leaf("Z", [0])],
+        "HadamardGate": [_leaf("H", [0])], "SxGate": [_leaf("Sx", [0])], "SGate": [_leaf("S", [0])], "SAdjGate": [_leaf("Sdg", [0])],
+        "TGate": [_leaf("T", [0])], "TAdjGate": [_leaf("Tdg", [0])],
+        "RxGate": [_leaf("Rx", [0], [0.7])], "RyGate": [_leaf("Ry", [0], [-1.3])], "RzGate": [_leaf("Rz", [0], [2.1])],
+        "RotationGate": [_leaf("Rot", [0], [0.3, -0.4, 1.2]), _leaf("Rot", [0], [0.0, 0.0, 0.0])],
+        "PhaseFactorGate": [_leaf("Phase", [0, 1], [0.6], n=2), _leaf("Phase", [0], [-1.1], n=1)],
+        "RxxGate": [_leaf("Rxx", [0, 1], [0.9])], "RyyGate": [_leaf("Ryy", [0, 1], [-0.5])], "RzzGate": [_leaf("Rzz", [0, 1], [1.7])],
+        "ISwapGate": [_leaf("ISwap", [0, 1])],
+        "PrepareGate": [{"k": "prep", "n": 1, "vec": [0.25, -0.75], "tr": False, "q": [0]},
+                        {"k": "prep", "n": 2, "vec": [0.0, 0.5, -0.25, 0.25], "tr": True, "q": [0, 1]}],
+        "GeneralGate": [{"k": "gen", "n": 1, "mat": [[[r, 0], [0, r]], [[0, r], [r, 0]]], "q": [0]},
+                        {"k": "gen", "n": 2, "mat": mono, "q": [0, 1]}],
+        "ControlledGate": [{"k": "ctrl", "pat": [1], "cq": [0], "g": _leaf("Y", [1])},
+                           {"k": "ctrl", "pat": [0, 1], "cq": [0, 1], "g": _leaf("Rot", [2], [0.3, 0.1, -0.2])},
+                           {"k": "ctrl", "pat": [0], "cq": [0], "g": _leaf("H", [1])},
+                           {"k": "ctrl", "pat": [1], "cq": [0], "g": _leaf("ISwap", [1, 2])},
+                           {"k": "ctrl", "pat": [1], "cq": [0], "g": {"k": "prep", "n": 1, "vec": [0.5, 0.5], "tr": False, "q": [1]}}],
+        "MultiplexedGate": [{"k": "mux", "nc": 1, "cq": [0], "gs": [_leaf("H", [1]), _leaf("T", [1])]},
+                            {"k": "mux", "nc": 1, "cq": [0], "gs": [_leaf("Sx", [1]), _leaf("Rot", [1], [0.5, 0.2, -0.1])]},
+                            {"k": "mux", "nc": 1, "cq": [0], "gs": [_leaf("ISwap", [1, 2]), _leaf("Rzz", [1, 2], [0.4])]}],
+        "BlockEncodingGate": [{"k": "benc", "method": m, "aux": [0],
+                               "h": {"op": "pauli", "n": 1, "fid": 1, "terms": [["X", 0.3], ["Z", -0.4]]}} for m in ("Wx", "Wxi", "R")],
+        "TimeEvolutionGate": [{"k": "tevo", "t": 0.7, "h": {"op": "heis", "n": 2, "fid": 1, "J": [0.3, -0.2, 0.5], "h": [0.1, 0.2, -0.3]}}],
+    }
+    return sp
+
+
+def gate_classes_without_spec():
+    import inspect
+    import qib.operator as qop
+    have = class_specs()
+    return sorted(n for n, c in vars(qop).items()
+                  if inspect.isclass(c) and issubclass(c, qop.Gate) and c is not qop.Gate and not inspect.isabstract(c) and n not in have)
+
+
+def fresh_dense(a):
+    return np.array(a.toarray() if hasattr(a, "toarray") else a, dtype=complex, copy=True)
+
+
+def scribble_array(a):
+    """write into a returned / caller-owned array in place: the result is neither unitary nor Hermitian nor the old value"""
+    if not isinstance(a, np.ndarray) or not a.flags.writeable or a.size == 0:
+        return False
+    try:
+        np.multiply(a, 2, out=a, casting="unsafe")
+        a.flat[a.size - 1] = 3
+        if a.size > 1:
+            a.flat[1] = 5
+    except (ValueError, TypeError):
+        return False
+    return True
+
+
+def observe_gate(g, with_inverse=True):
+    """(matrix, matrix of inverse() or None, claims hermitian, claims unitary, num_wires) - all copies"""
+    U = fresh_dense(g.as_matrix())
+    Ui = fresh_dense(g.inverse().as_matrix()) if with_inverse else None
+    return U, Ui, bool(g.is_hermitian()), bool(g.is_unitary()), int(g.num_wires)
+
+
+def check_fresh_arrays(ctx, pid, inp):
+    spec = inp["spec"]
+    kind = spec["name"] if spec["k"] == "leaf" else spec["k"]
+    tol = 1e-9
+    try:
+        world = World(nqubits_of(spec))
+        own = []
+        g = build(spec, world, own)
+        base = observe_gate(g, pid == "C03")
+    except Exception as e:
+        ctx.fail("object-history:%s:construction-raises" % kind, inp, "a gate", repr(e)[:200])
+        return
+
+    def verdict(stage, who, obs, baseline_applies):
+        U, Ui, herm, unit, nw = obs
+        where = dict(inp, stage=stage, object=who)
+        I = np.eye(U.shape[0])
+        if pid == "C01" and (U.shape != (2 ** nw,) * 2 or maxerr(U @ U.conj().T, I) > tol or not unit):
+            ctx.fail("object-history:%s:not-unitary-after-%s" % (kind, stage), where, "unitary matrix", maxerr(U @ U.conj().T, I))
+        if pid == "C02" and baseline_applies and maxerr(U, base[0]) > tol:
+            ctx.fail("object-history:%s:matrix-changed-after-%s" % (kind, stage), where, "the matrix reported before", maxerr(U, base[0]))
+        if pid == "C03" and (maxerr(Ui @ U, I) > tol or maxerr(U @ Ui, I) > tol):
+            ctx.fail("object-history:%s:inverse-does-not-invert-after-%s" % (kind, stage), where, "inverse() * gate = 1", maxerr(Ui @ U, I))
+        if pid == "C16" and herm and maxerr(U, U.conj().T) > tol:
+            ctx.fail("object-history:%s:claims-hermitian-but-is-not-after-%s" % (kind, stage), where, "U = U^dagger", maxerr(U, U.conj().T))
+
+    def look(stage, baseline_applies):
+        for who, mk in (("same object", lambda: g), ("fresh instance", lambda: build(spec, World(nqubits_of(spec))))):
+            try:
+                obs = observe_gate(mk(), pid == "C03")
+            except Exception as e:
+                ctx.fail("object-history:%s:raises-after-%s" % (kind, stage), dict(inp, stage=stage, object=who),
+                         "as_matrix / inverse / flags evaluate", repr(e)[:200])
+                continue
+            verdict(stage, who, obs, baseline_applies or who == "fresh instance")
+
+    try:
+        # stage 1: write into every array the gate, its inverse and their parts hand out
+        wrote = 0
+        objs = list(walk(g)) + list(walk(g.inverse()))       # the inverse is taken BEFORE anything is written
+        for rounds in range(2):
+            handed = []
+            for o in objs:
+                try:
+                    handed.append(o.as_matrix())
+                except Exception:
+                    pass                                       # reported by look() below
+            for a in handed:
+                wrote += bool(scribble_array(a))
+        ctx.count("object_history_arrays_written", wrote)
+        look("writing-into-returned-matrices", True)
+        # stage 2: write into the arrays that were handed to constructors (the gate may follow them, but must remain a gate)
+        if own:
+            # the baseline comparison is not applied to the same object here: a by-reference parameter is a legitimate design
+            g2_own = []
+            g = build(spec, World(nqubits_of(spec)), g2_own)
+            for a in g2_own:
+                scribble_array(a)
+            look("writing-into-constructor-arrays", False)
+    except Exception as e:
+        ctx.fail("object-history:%s:oracle-raises" % kind, inp, "history evaluates", repr(e)[:300])
+
+
+def rebind(g, world, qs):
+    """move a gate to the qubits qs (wire numbers of `world`) through its public binding API; returns False when the class
+    offers no way to re-bind (two-qubit rotations, time evolution)"""
+    T = type(g).__name__
+    Q = [world.q(i) for i in qs]
+    if T == "ControlledGate":
+        nc = g.num_controls
+        if nc:
+            g.set_control(Q[:nc])
+        return rebind(g.target_gate(), world, qs[nc:])
+    if T == "MultiplexedGate":
+        nc = g.num_controls
+        if nc:
+            g.set_control(Q[:nc])
+        return all([rebind(t, world, qs[nc:]) for t in g.target_gates()])
+    if T == "BlockEncodingGate":
+        g.set_auxiliary_qubits(Q[:g.num_aux_qubits])
+        return True
+    if T in ("PhaseFactorGate", "PrepareGate", "GeneralGate"):
+        g.on(Q)
+        return True
+    if T == "ISwapGate":
+        g.on(Q[0], Q[1])
+        return True
+    if T in ("RxxGate", "RyyGate", "RzzGate", "TimeEvolutionGate"):
+        return False
+    g.on(Q[0])
+    return True
+
+
+def check_rebind(ctx, pid, inp):
+    """g on wires A; gi = g.inverse(); move gi to wires B; then gi and gi.inverse() must live on B (particles, circuit matrices),
+    gi.inverse() must invert gi, and inverse().inverse() taken after the move must equal the moved gate's matrix"""
+    import qib
+    spec = inp["spec"]
+    kind = spec["name"] if spec["k"] == "leaf" else spec["k"]
+    w = nqubits_of(spec)
+    tol = 1e-9
+    try:
+        world = World(2 * w)
+        g = build(spec, world)
+        U = fresh_dense(g.as_matrix())
+        gi = g.inverse()
+        B = [2 * w - 1 - j for j in range(w)] if inp.get("reverse", True) else list(range(w, 2 * w))
+        nbind = len(particles_or_none(g, world) or [])
+        if type(g).__name__ == "BlockEncodingGate":
+            B = B[:1]
+        if not rebind(gi, world, B):
+            ctx.count("rebind:no-binding-api:" + kind)
+            return
+        ctx.count("rebind:" + kind)
+    except Exception as e:
+        ctx.fail("rebind:%s:raises" % kind, inp, "inverse() can be re-bound", repr(e)[:200])
+        return
+    try:
+        pi = particles_or_none(gi, world)
+        gii = gi.inverse()
+        pii = particles_or_none(gii, world)
+        Ui, Uii = fresh_dense(gi.as_matrix()), fresh_dense(gii.as_matrix())
+        giii = gii.inverse()
+        piii = particles_or_none(giii, world)
+        Uiii = fresh_dense(giii.as_matrix())
+    except Exception as e:
+        ctx.fail("rebind:%s:inverse-raises-after-re-binding" % kind, inp, "a gate", repr(e)[:200])
+        return
+    I = np.eye(U.shape[0])
+    if pid == "C01":
+        for nm, A in (("inverse", Ui), ("inverse-of-moved-inverse", Uii)):
+            if A.shape != U.shape or maxerr(A @ A.conj().T, I) > tol:
+                ctx.fail("rebind:%s:not-unitary:%s" % (kind, nm), inp, "unitary", maxerr(A @ A.conj().T, I))
+    if pid == "C02" and (maxerr(Ui, U.conj().T) > tol or maxerr(Uii, U) > tol):
+        ctx.fail("rebind:%s:matrix-changed-by-re-binding" % kind, inp, "matrices do not depend on the binding", max(maxerr(Ui, U.conj().T), maxerr(Uii, U)))
+    if pid == "C16":
+        for nm, o, A in (("inverse", gi, Ui), ("inverse-of-moved-inverse", gii, Uii)):
+            if o.is_hermitian() and maxerr(A, A.conj().T) > tol:
+                ctx.fail("rebind:%s:claims-hermitian-but-is-not:%s" % (kind, nm), inp, "U = U^dagger", maxerr(A, A.conj().T))
+    if pid != "C03":
+        return
+    want = [world.num(world.q(i)) for i in B]
+    sysp = None
+    if type(g).__name__ == "BlockEncodingGate":
+        p0 = particles_or_none(g, world)
+        want = want + (p0[1:] if p0 else [])
+    if pi is not None and pi != want:
+        ctx.fail("rebind:%s:moved-inverse-not-on-the-new-particles" % kind, inp, want, pi)
+    if pii != pi:
+        ctx.fail("rebind:%s:inverse-of-moved-gate-on-other-particles" % kind, inp, pi, pii)
+    if piii != pi:
+        ctx.fail("rebind:%s:double-inverse-of-moved-gate-on-other-particles" % kind, inp, pi, piii)
+    if maxerr(Uii @ Ui, I) > tol or maxerr(Ui @ Uii, I) > tol:
+        ctx.fail("rebind:%s:inverse-of-moved-gate-does-not-invert" % kind, inp, "inverse() * gate = 1", maxerr(Uii @ Ui, I))
+    if maxerr(Uiii, Ui) > tol:
+        ctx.fail("rebind:%s:double-inverse-of-moved-gate-differs" % kind, inp, "g.inverse().inverse() = g", maxerr(Uiii, Ui))
+    # circuit level on the whole register
+    try:
+        fields = world.order[:2] if world.qf2 is not None else [world.qf]
+        extra = [f for f in gi.fields() if f not in fields]
+        fields = fields + extra
+        if sum(f.lattice.nsites for f in fields) <= 9 and pi is not None and len(pi) == gi.num_wires:
+            C = qib.Circuit([gi])
+            M, Mi = dense(C.as_matrix(fields)), dense(C.inverse().as_matrix(fields))
+            if maxerr(Mi @ M, np.eye(M.shape[0])) > tol:
+                ctx.fail("rebind:%s:circuit-inverse-of-moved-gate-does-not-invert" % kind, inp, "C.inverse() C = 1", maxerr(Mi @ M, np.eye(M.shape[0])))
+            C2 = qib.Circuit([gi, gii])
+            M2 = dense(C2.as_matrix(fields))
+            if maxerr(M2, np.eye(M2.shape[0])) > tol:
+                ctx.fail("rebind:%s:circuit-[g, g.inverse()]-is-not-the-identity-after-re-binding" % kind, inp, "identity", maxerr(M2, np.eye(M2.shape[0])))
+            ctx.count("rebind:circuit-level")
+    except Exception as e:
+        ctx.fail("rebind:%s:circuit-raises-after-re-binding" % kind, inp, "circuit matrices", repr(e)[:200])
+
+
+def close_pairs():
+    """pairs of gate specs on the SAME wires whose parameters differ by less than numpy's allclose tolerance
+    (rtol 1e-5, atol 1e-8) but by much more than the oracle tolerance 1e-9; w = wires of each"""
+    r = 1 / math.sqrt(2)
+    ph = complex(math.cos(4e-6), math.sin(4e-6))
+
+    def gm(M, q):
+        return {"k": "gen", "n": len(q), "mat": [[[float(np.real(c)), float(np.imag(c))] for c in row] for row in M], "q": q}
+    H = np.array([[0, 1], [1j, 0]], dtype=complex)          # not Hermitian (is_hermitian of a GeneralGate is an allclose test)
+    S2 = np.diag([1, 1j, -1, -1j]).astype(complex)
+    out = [
+        (1, _leaf("Rot", [1], [300.0, 0.0, 0.0]), _leaf("Rot", [1], [300.002, 0.0, 0.0])),
+        (1, _leaf("Rot", [1], [0.3, -0.4, 1.2]), _leaf("Rot", [1], [0.3000012, -0.4, 1.2000031])),
+        (1, _leaf("Rot", [1], [0.0, 0.0, 0.0]), _leaf("Rot", [1], [4e-9, 0.0, -6e-9])),
+        (1, _leaf("Rx", [1], [1000.0]), _leaf("Rx", [1], [1000.004])),
+        (1, _leaf("Ry", [1], [2.0]), _leaf("Ry", [1], [2.000008])),
+        (1, _leaf("Rz", [1], [0.0]), _leaf("Rz", [1], [7e-9])),
+        (2, _leaf("Rxx", [1, 2], [50.0]), _leaf("Rxx", [1, 2], [50.0002])),
+        (2, _leaf("Rzz", [1, 2], [-3.0]), _leaf("Rzz", [1, 2], [-3.00001])),
+        (2, _leaf("Phase", [1, 2], [1.0], n=2), _leaf("Phase", [1, 2], [1.000004], n=2)),
+        (1, gm(H, [1]), gm(H * ph, [1])),
+        (2, gm(S2, [1, 2]), gm(S2 @ np.diag([1, ph, 1, ph.conjugate()]), [1, 2])),
+        (1, {"k": "prep", "n": 1, "vec": [0.25, 0.75], "tr": False, "q": [1]}, {"k": "prep", "n": 1, "vec": [0.250002, 0.749998], "tr": False, "q": [1]}),
+        (2, {"k": "prep", "n": 2, "vec": [0.5, -0.25, 0.0, 0.25], "tr": True, "q": [1, 2]},
+         {"k": "prep", "n": 2, "vec": [0.500002, -0.249999, 0.0, 0.249999], "tr": True, "q": [1, 2]}),
+        (1, {"k": "tevo", "t": 100.0, "h": {"op": "pauli", "n": 1, "fid": 1, "terms": [["X", 0.5], ["Z", 0.25]]}},
+         {"k": "tevo", "t": 100.0004, "h": {"op": "pauli", "n": 1, "fid": 1, "terms": [["X", 0.5], ["Z", 0.25]]}}),
+    ]
+    return out
+
+
+def close_parameter_specs():
+    """composites holding two nearly equal targets (and, as controls, two exactly equal ones / the same spec twice)"""
+    specs = []
+    for w, a, b in close_pairs():
+        specs.append({"k": "mux", "nc": 1, "cq": [0], "gs": [a, b]})
+        specs.append({"k": "mux", "nc": 1, "cq": [0], "gs": [b, a]})
+        specs.append({"k": "mux", "nc": 2, "cq": [w + 1, 0], "gs": [a, b, a, b]})
+        specs.append({"k": "mux", "nc": 1, "cq": [0], "gs": [a, a]})
+        specs.append({"k": "ctrl", "pat": [0], "cq": [w + 1], "g": {"k": "mux", "nc": 1, "cq": [0], "gs": [a, b]}})
+    return specs
+
+
+def check_close_circuit(ctx, pid, inp):
+    """a circuit [a, b, a] of nearly equal gates: C.inverse() C = 1 and C.inverse() = a^dagger b^dagger a^dagger"""
+    if pid != "C03":
+        return
+    import qib
+    try:
+        w = max(nqubits_of(x) for x in inp["gates"])
+        world = World(w)
+        gates = [build(x, world) for x in inp["gates"]]
+        if any(len(g.particles()) != g.num_wires for g in gates):
+            return
+        C = qib.Circuit(gates)
+        fields = C.fields()
+        if sum(f.lattice.nsites for f in fields) > 8:
+            return
+        M, Mi = dense(C.as_matrix(fields)), dense(C.inverse().as_matrix(fields))
+    except Exception as e:
+        ctx.fail("close-parameters:circuit-raises", inp, "circuit matrices", repr(e)[:200])
+        return
+    if maxerr(Mi @ M, np.eye(M.shape[0])) > TOL:
+        ctx.fail("close-parameters:circuit-inverse-does-not-invert", inp, "C.inverse() C = 1", maxerr(Mi @ M, np.eye(M.shape[0])))
+
+
+def object_history_checks(ctx, pid):
+    ctx.rules.append(
+        "gate objects along histories, EVERY gate class of qib.operator (found by introspection; a class without a spec breaks an "
+        "obligation): (i) write in place into every matrix handed out by the gate, its inverse() and their parts, then as_matrix / "
+        "inverse / flags of the same object and of a fresh instance against the values reported before; the same with the arrays that "
+        "were handed to constructors (the gate may follow them but must remain a gate); (ii) multiplexers (1-2 controls, nested in a "
+        "controlled gate) and circuits whose targets differ by less than numpy's allclose tolerance but more than 1e-9 (rotation vectors / "
+        "angles, large and tiny, phase factors, user-defined matrices, preparation vectors, evolution times): all oracles of the property; "
+        "(iii) g.inverse() moved to other qubits through on / set_control / set_auxiliary_qubits, then inverse() and inverse().inverse(): "
+        "particles, matrices, Circuit([g]).inverse() and Circuit([g, g.inverse()]) on the register")
+    missing = gate_classes_without_spec()
+    ctx.oblige("object-histories:every-gate-class-has-a-spec", "correspondence", not missing, "no spec for: %s" % ", ".join(missing))
+    for cls, specs in sorted(class_specs().items()):
+        for spec in specs:
+            ctx.count("object_history:" + cls)
+            inp = {"comp": True, "what": "fresh-arrays", "spec": spec}
+            check_fresh_arrays(ctx, pid, inp)
+            check_rebind(ctx, pid, {"comp": True, "what": "rebind", "spec": spec})
+            ctx.nontriv(("object-history", cls, repr(spec)[:600]))
+    for spec in close_parameter_specs():
+        ctx.count("close_parameter_composites")
+        check_tree(ctx, pid, spec, [], [], only_oracle=True)
+        ctx.nontriv(("close-parameters", repr(spec)[:900]))
+    for w, a, b in close_pairs():
+        if a["k"] != "tevo":
+            check_close_circuit(ctx, pid, {"comp": True, "what": "close-circuit", "gates": [a, b, a]})
+
+
 # =============================================================================== C03, circuit level
 def gen_circuit(rng, thorough):
     """a circuit of 2..8 bound gates (gate trees of <= 3 wires, depth <= 2) on a register of 2..5 qubits"""
@@ -1979,6 +2340,12 @@ def replay(ctx, pid, data):
         check_wide_control(ctx, inp)
     elif inp["what"] == "layout":
         check_layout(ctx, pid, inp)
+    elif inp["what"] == "fresh-arrays":
+        check_fresh_arrays(ctx, pid, inp)
+    elif inp["what"] == "rebind":
+        check_rebind(ctx, pid, inp)
+    elif inp["what"] == "close-circuit":
+        check_close_circuit(ctx, pid, inp)
     elif inp["what"] == "generator-rep":
         check_generator_rep(ctx, pid, dict(inp, gates=[inp["gate"]] if "gate" in inp else inp["gates"]))
     elif inp["what"] == "circuit-history":
